@@ -197,7 +197,11 @@ def SpecI.fill (s : SpecI) (t : Trade) : SpecI :=
     mark := some ⟨t.price, if opens s.pm.current t then .openingFill else .fill⟩ }
 
 /-- (c) after a market event the mark is the current price if there is one (whatever the event
-carried: the estimate is never left at an older price); otherwise it stays. -/
+carried: the estimate is never left at an older price); otherwise it stays.
+Reading of the text made explicit: "current price" is the price held after the event was processed
+and "newer market data" is any market item for the instrument arriving after the fill (arrival
+order, not exchange time) — a stale or price-less item also moves the mark to the held current
+price (the property's observation point is `pnl_unrealised` vs `price()` after every market event). -/
 def SpecI.market (s : SpecI) (ev : MarketEvent) : SpecI :=
   let data := processData s.data ev
   { s with
